@@ -28,14 +28,16 @@ CATCHES = {
     # a proper superset of the map that is raised, and the list/set twins
     "mapsup": ("map", [(L("k"), L(1)), (L("j"), L(2))]),
     "set12": ("set", [L(1), L(2)]),
+    # an object whose _str_ member logs: raising it must not render it
+    "eo": V("eo"),
     "var": V("cv"), "raises": V("no_such_name"),
 }
 FRAMES = ["do", "c:a", "c:one", "c:list", "c:null", "c:ERROR", "c:var",
           "c:raises", "c:map", "all", "fin", "c:a+fin", "all+fin",
           "c:b|c:a", "c:a|all", "c:onef+fin", "c:mapsup|c:map",
-          "c:set12|c:list", "func", "funcargs", "for",
+          "c:set12|c:list", "c:eo", "func", "funcargs", "for",
           "while", "for:set", "for:map", "for:str", "for:input",
-          "cb:input", "cb:list", "eval:str", "eval:node"]
+          "cb:input", "cb:list", "eval:str", "eval:node", "while:nb"]
 # what the loop frames iterate (two iterations each); an input stream is a
 # sequence of lines
 ITERABLES = {
@@ -59,6 +61,7 @@ INJ = {
     "undef": V("undefined_thing"),
     "div0": ("bin", "/", L(1), L(0)),
     "callraise": ("call", V("boom"), []),
+    "err_obj": ("error", V("eo")),
     # more runtime errors: their value must be the string 'ERROR' as well
     "div0f": ("rawerr", "(1.5 / 0)"), "div0ff": ("rawerr", "(1 / 0.0)"),
     "mod0": ("rawerr", "(1 % 0)"), "idx": ("rawerr", "[1][5]"),
@@ -71,7 +74,8 @@ INJ = {
     "break": ("break",), "continue": ("continue",),
 }
 INJ2 = ["err_a", "err_1", "return", "break", "err_list"]
-INJ1Q = ["err_a", "err_1f", "err_null", "undef", "callraise", "hostfail",
+INJ1Q = ["err_a", "err_1f", "err_null", "err_obj", "undef", "callraise",
+         "hostfail",
          "div0f", "req_err", "return",
          "break", "continue"]
 
@@ -152,6 +156,15 @@ class Builder:
                                       (node, ("seq", body +
                                               [L("evret%d" % i)]))])),
                     ("log", L("after-eval%d" % i))]
+        if f == "while:nb":
+            # the condition is TRUE once and NULL afterwards: the second
+            # test raises the runtime error
+            n = "n%d" % i
+            cond = ("if", [(("cmp", [V(n), "<", L(1)]), L(True))], L(None))
+            return [("def", n, L(0)),
+                    ("while", cond,
+                     ("seq", [("assign", n, ("bin", "+", V(n), L(1)))] +
+                      body)), ("log", L("after-while%d" % i))]
         if f == "while":
             n = "n%d" % i
             return [("def", n, L(0)),
@@ -181,6 +194,11 @@ class Builder:
     def program(self):
         stmts = [("raw", "require IO import [process_lines, str_input]",
                   None), ("def", "cv", L("a")),
+                 ("def", "eo", ("obj", [
+                     ("tag", L(1)),
+                     ("_str_", ("fn", [("self", None, False)],
+                                ("seq", [("log", L("str-called")),
+                                         L("x")])))])),
                  ("def", "boom", ("fn", [], ("error", L("a"))), True)]
         stmts += self.frame(0)
         stmts.append(("log", L("end")))
@@ -301,10 +319,11 @@ def main(tier, seed):
     for c in core.chunked(sk1, 8):
         jobs.append({"skeletons": c, "full1": True, "two": True})
     if tier == "quick":
-        core2 = ["c:a", "all", "c:a+fin", "c:b|c:a", "funcargs", "for"]
+        core2 = ["c:a", "all", "c:a+fin", "funcargs", "for"]
         # the loop frames over other iterables and the callback frames are
         # paired with the core frame kinds only
-        late = FRAMES[FRAMES.index("for:set"):]
+        late = FRAMES[FRAMES.index("for:set"):] + [
+            "c:mapsup|c:map", "c:set12|c:list", "c:eo"]
         sk2 = [(a, b) for (a, b) in sk2
                if (a not in late and b not in late) or
                (a in late and b in core2) or (b in late and a in core2)]
